@@ -224,18 +224,53 @@ func runC48(c *Ctx) {
 				okNI := an.FactsAt(r).Cmp(func(e, tag ast.Expr, truth bool, fa *Fact) bool {
 					id, ok := e.(*ast.Ident)
 					return ok && !truth && strings.HasSuffix(an.Prov(id), ".isImmediate()")
-				})
+				}) || an.FactsAt(r).CallFalse("acme.DNS.isImmediate")
 				v, _ := an.ConstVal(r.Results[2])
 				c.Ob("rcode", "DNS.answer#not-immediate->NameError+authoritative", r.Pos(), okNI && v == "true" && isNilIdent(an.Info, r.Results[0]), "a name outside the immediate children of the zone gets NXDOMAIN, authoritative, no records")
 			}
 		}
 	}
-	ast.Inspect(an.Body, func(n ast.Node) bool {
-		as, ok := n.(*ast.AssignStmt)
-		if !ok || len(as.Lhs) != 1 || types_ExprString(as.Lhs[0]) != "rcode" {
-			return true
+	// the places an rcode is decided: assignments to the rcode result, and constants returned
+	// in its position (other than the not-immediate refusal handled above)
+	var rcodeObj types.Object
+	if an.Type.Results != nil {
+		i := 0
+		for _, fld := range an.Type.Results.List {
+			for _, nm := range fld.Names {
+				if i == 1 {
+					rcodeObj = an.Info.Defs[nm]
+				}
+				i++
+			}
 		}
-		code := constName(an, as.Rhs[0])
+	}
+	type rsite struct {
+		at   ast.Node
+		code string
+	}
+	var rsites []rsite
+	for _, nd := range shallowNodes(an.Body) {
+		switch x := nd.(type) {
+		case *ast.AssignStmt:
+			if len(x.Lhs) == 1 && rcodeObj != nil && an.ObjOf(x.Lhs[0]) == rcodeObj {
+				rsites = append(rsites, rsite{x, constName(an, x.Rhs[0])})
+			}
+		case *ast.ReturnStmt:
+			if len(x.Results) == 3 {
+				if code := constName(an, x.Results[1]); code != "" && !(code == "RcodeNameError" && an.FactsAt(x).CallFalse("acme.DNS.isImmediate")) {
+					if code == "RcodeNameError" && an.FactsAt(x).Cmp(func(e, tag ast.Expr, truth bool, fa *Fact) bool {
+						id, ok := e.(*ast.Ident)
+						return ok && !truth && strings.HasSuffix(an.Prov(id), ".isImmediate()")
+					}) {
+						continue
+					}
+					rsites = append(rsites, rsite{x, code})
+				}
+			}
+		}
+	}
+	for _, rs := range rsites {
+		as, code := rs.at, rs.code
 		fs := an.FactsAt(as)
 		switch code {
 		case "RcodeNotImplemented":
@@ -246,7 +281,30 @@ func runC48(c *Ctx) {
 			}), "ANY queries are refused with NotImplemented")
 		case "RcodeServerFailure":
 			seen["servfail"] = true
-			c.Ob("rcode", "DNS.answer#storage-error->ServerFailure", as.Pos(), fs.CallFail("acme.DNS.answerTXT"), "a storage failure is reported as SERVFAIL (not as an empty answer)")
+			// the lookup is known to have failed: directly, or through a flag that is false
+			// except where it is set to `err != nil` of the lookup's error
+			viaFlag := fs.Cmp(func(e, tag ast.Expr, truth bool, fa *Fact) bool {
+				v := an.varOf(e)
+				if v == nil || tag != nil || !truth {
+					return false
+				}
+				nset := 0
+				for _, d := range an.defsOf(v) {
+					if d.rhs == nil || d.multi {
+						return false
+					}
+					if cv, ok := an.ConstVal(d.rhs); ok && cv == "false" {
+						continue
+					}
+					be, ok := ast.Unparen(d.rhs).(*ast.BinaryExpr)
+					if !ok || be.Op != token.NEQ || !isNilIdent(an.Info, be.Y) || !strings.HasSuffix(an.Prov(be.X), ".answerTXT()#1") {
+						return false
+					}
+					nset++
+				}
+				return nset > 0
+			})
+			c.Ob("rcode", "DNS.answer#storage-error->ServerFailure", as.Pos(), fs.CallFail("acme.DNS.answerTXT") || viaFlag, "a storage failure is reported as SERVFAIL (not as an empty answer)")
 		case "RcodeNameError":
 			seen["empty"] = true
 			c.Ob("rcode", "DNS.answer#no-records->NameError", as.Pos(), fs.Cmp(func(e, tag ast.Expr, truth bool, fa *Fact) bool {
@@ -263,8 +321,7 @@ func runC48(c *Ctx) {
 		default:
 			c.Ob("rcode", "DNS.answer#rcode:"+code, as.Pos(), false, "unexpected rcode assignment")
 		}
-		return true
-	})
+	}
 	for _, k := range []string{"not-immediate", "any", "servfail", "empty"} {
 		c.Ob("rcode", "DNS.answer#has-"+k, an.Decl.Pos(), seen[k], "the decision list distinguishes this outcome")
 	}
